@@ -184,6 +184,25 @@ def rule_CF(ctx, tier):
                                 for o_ in s["rv"].get("ops", []):
                                     if isinstance(o_, dict) and isinstance(o_.get("k"), dict) and "int" in o_["k"]:
                                         table[lit] = o_["k"]["int"]
+    # the name that is recognised is the name that is kept: the comparisons run on btc_network itself (through as_str /
+    # deref only) — recognising a transformed copy (lower-cased, trimmed) lets `Regtest` through verify while the data
+    # directory, the DB and the chain check later use the string as typed
+    xform = set()
+    for bb, t in v.calls():
+        if any(n.endswith("::eq") or n.endswith("::contains") for n in call_names(t)) and len(t["args"]) == 2:
+            for i in (0, 1):
+                a_ = arg_origin(ctx, v, bb, i)
+                if "f:btc_network" in og.show(a_):
+                    for c_ in og.calls_in(a_):
+                        last = c_.split("::")[-1]
+                        if last in ("to_lowercase", "to_uppercase", "to_ascii_lowercase", "to_ascii_uppercase", "trim", "trim_start", "trim_end", "replace", "trim_matches", "eq_ignore_ascii_case"):
+                            xform.add(last)
+        if any(n.endswith("eq_ignore_ascii_case") for n in call_names(t)) and any("f:btc_network" in og.show(arg_origin(ctx, v, bb, i)) for i in range(len(t["args"]))):
+            xform.add("eq_ignore_ascii_case")
+    if xform:
+        rr.fail("network-compare-transformed:%s" % ",".join(sorted(xform)), "Config::verify recognises the network on a transformed copy of `btc_network` (%s) while the field keeps what was typed: an unknown spelling passes verify and the tower opens its data directory and database before failing" % ", ".join(sorted(xform)), where=v.span)
+    else:
+        rr.ok("network recognised on btc_network itself (no case folding / trimming of a copy)")
     wantn = {"main": 8332, "test": 18332, "regtest": 18443, "signet": 38332}
     if table == wantn:
         rr.ok("network -> default RPC port table %s" % wantn, sample={"rule": "CF", "network table": table})
